@@ -1481,7 +1481,8 @@ def column_stack_varlen(cols):
 def count_nonzero(a, axis=None):
     a = asarray(a)
     if axis is not None:
-        raise Unsupported("count_nonzero axis")
+        ind = _unary(a, lambda v: ite(_tb(v), 1, 0), int64)
+        return sum(ind, axis)
     c = 0
     for i, v in enumerate(a.flat_list()):
         ok = _tb(v) if a.ndim != 1 else and_(_tb(v), _valid(a, i))
